@@ -160,6 +160,8 @@ def boundary_corpus():
         for member in cls.__members__:
             out.append(std('enum', ename, member))
     out += [std('enum', 'Perm', n) for n in range(8)] + [std('enum', 'IPerm', n) for n in (0, 2, 6, 8)]
+    out += [std('callable', name) for name in sorted(stdvals.CALLABLES_OK)] + [std('callable', name) for name in sorted(stdvals.CALLABLES_TOTAL)]
+    out += [std('partial', 'partial', name, [I(1)], []) for name in sorted(stdvals.FUNCTIONS)]
     return out
 
 
@@ -249,6 +251,9 @@ def oracle(case):
     fb = p.fallback_warnings()
     if fb:
         return core.viol('printer-failed', fb[0][:600], labels)
+    if r[1] == 'callable' and r[2] in stdvals.CALLABLES_TOTAL:
+        # a bound method of an instance (or a lambda) has no expression: only "the shipped printer does not fail"
+        return core.ok(False, labels + ['totality-only'])
     try:
         back = values.evaluate(p.text, _env())
     except Exception as e:
